@@ -63,7 +63,7 @@ REQUIRED_PROBES = ["madgwick.Madgwick.updateIMU", "madgwick.Madgwick.updateMARG"
                    "ekf.EKF.update", "aqua.AQUA.updateIMU", "aqua.AQUA.updateMARG", "roleq.ROLEQ.update", "fkf.FKF.kalman_update",
                    "complementary.Complementary.am_estimation"]
 RULE = ("cases = (filter configuration, true attitude Haar-random, initial error e0 in {175, 150-175, 90-150, 10-90, 0-10} deg about a "
-        "random axis (horizontal axis for accelerometer-only variants), magnetic dip in +-70 deg, gyro noise sigma 1e-6..1e-3 rad/s realised as 3-axis Gaussian / one-axis / two-axis / quantised (exact-zero components), "
+        "random axis (horizontal axis for accelerometer-only variants), magnetic dip in +-70 deg, gyro noise sigma 1e-12..1e-3 rad/s realised as 3-axis Gaussian / one-axis / two-axis / quantised (exact-zero components), "
         "seed); each case is one run of 1.5 N samples; non-trivial = e0 > 1 deg")
 ASSUMPTIONS = ["bounded-progress restatement: N and tol per configuration come from the filter's gain/geometry (Madgwick: N >= 4 pi/(gain dt), "
                "tol = 5 gain dt + 2e-3; ROLEQ: N from rho = (1 + 2|cos angle(refs)|)/3; others calibrated on the pinned tree, x2 in N and x5 in tol)",
@@ -109,7 +109,7 @@ def generate(rng, tier, shard, nshards):
                 if k % nshards != shard:
                     continue
                 yield Case("%s[%s]" % (name, lab), reg, cfg=name, label=lab, q_true=gens.unit(rng), axis=gens.axis(rng), e0_deg=e0_of(rng, reg),
-                           dip_deg=float(rng.uniform(-70, 70)), gyro_sigma=gens.logu(rng, 1e-6, 1e-3), seed=int(rng.integers(2**31)),
+                           dip_deg=float(rng.uniform(-70, 70)), gyro_sigma=gens.logu(rng, 1e-6, 1e-3) if k % 3 else gens.logu(rng, 1e-12, 1e-6), seed=int(rng.integers(2**31)),
                            gyro_mode=GYRO_MODES[k % len(GYRO_MODES)])
 
 
